@@ -241,6 +241,10 @@ func (m *mangler) makeSignature(cert *certloader.Certificate, opts signers.SignO
 		if err != nil {
 			return nil, fmt.Errorf("failed to timestamp signature: %w", err)
 		}
+		// only attach a token that is genuine and covers this signature value
+		if _, err := pkcs9.Verify(tst, encryptedDigest, nil); err != nil {
+			return nil, fmt.Errorf("timestamp failed signature self-check: %w", err)
+		}
 		blob, err := tst.Marshal()
 		if err != nil {
 			return nil, fmt.Errorf("failed to timestamp signature: %w", err)
